@@ -29,7 +29,7 @@ var coffFileNames = []struct {
 	name string
 }{{false, ""}, {true, ""}, {true, "a"}, {true, "seventeen_chars.n"}, {true, "eighteen_chars.nas"}, {true, "nineteen_chars_.nas"}, {true, "a_file_name_of_exactly_forty_chars_.nas"}}
 
-var coffBodies = []string{"empty", "one", "routines", "large", "strings"}
+var coffBodies = []string{"empty", "one", "routines", "large", "strings", "sections"}
 
 // ordered subsets of {0,1,2,3}
 func orderedSubsets() [][]int {
@@ -103,6 +103,12 @@ func buildCoffCase(body string, names [4]string, subset []int, placement int, ex
 		for i := 0; i < 4; i++ {
 			if body == "large" && i == 2 {
 				text.WriteString("\tRESB 70000\n")
+			}
+			if body == "sections" && i == 1 {
+				text.WriteString("[SECTION .data]\n\tDD 0x11223344, 2\n") // everything still goes into the one .text image
+			}
+			if body == "sections" && i == 3 {
+				text.WriteString("[SECTION .text]\n\tNOP\n[SECTION .bss]\n")
 			}
 			if body == "strings" && (i == 1 || i == 3) {
 				text.WriteString("\tDB \"caf\u00e9 \u65e5\u672c\", 0x0a, 0\n\tDB \"ascii; text, with # separators\",0\n")
@@ -331,7 +337,7 @@ func coffScenario(tier string, wantC08, wantC09 bool) *core.Scenario {
 	if tier != "thorough" {
 		namings = []int{1, 3, 5}
 		files = []int{0, 4, 5}
-		bodies = []string{"routines", "large", "empty", "one", "strings"}
+		bodies = []string{"routines", "large", "empty", "one", "strings", "sections"}
 	}
 	return &core.Scenario{
 		Name: "coff_programs", Bound: -1,
